@@ -60,6 +60,42 @@ def v_frames(p, files=None, min_sites=15):
   fact(p, 'frame.sites', n_sites >= min_sites, f'{n_sites} mutation sites were analysed (vacuity guard)', 'OWN')
 
 
+def v_hparams_passthrough(p):
+  """Every batching call of the round functions gets the hyper-parameter object the algorithm was built with, unchanged:
+  the argument of .shuffle_repeat_batch(...) / .padded_batch(...) is a parameter name of an enclosing function, never a value
+  derived inside the round (a derived copy can lose the seed - seed=None draws OS entropy - or the step limits)."""
+  total, bad = 0, []
+  for a in ALGS:
+    rel = f'fedjax/algorithms/{a}.py'
+    _, tree = parse(rel)
+    parents = {}
+    for n in ast.walk(tree):
+      for c in ast.iter_child_nodes(n):
+        parents[c] = n
+    for c in ast.walk(tree):
+      if isinstance(c, ast.Call) and isinstance(c.func, ast.Attribute) and c.func.attr in ('shuffle_repeat_batch', 'padded_batch'):
+        total += 1
+        ok = len(c.args) == 1 and not c.keywords and isinstance(c.args[0], ast.Name)
+        if ok:
+          name, n, is_param, rebound = c.args[0].id, c, False, False
+          while n in parents:
+            n = parents[n]
+            if isinstance(n, (ast.FunctionDef, ast.Lambda)):
+              args = n.args
+              if name in [x.arg for x in args.args + args.kwonlyargs + args.posonlyargs]:
+                is_param = True
+                break
+              if isinstance(n, ast.FunctionDef) and any(
+                  isinstance(t, ast.Name) and t.id == name for st in ast.walk(n) if isinstance(st, (ast.Assign, ast.AugAssign, ast.AnnAssign))
+                  for t in (st.targets if isinstance(st, ast.Assign) else [st.target])):
+                rebound = True
+          ok = is_param and not rebound
+        if not ok:
+          bad.append(f'{rel}:{c.lineno} {ast.unparse(c)[:80]}')
+  fact(p, 'hparams.passthrough', total >= 12 and not bad,
+       f'{total} batching calls in the algorithm modules pass a builder parameter unchanged ({bad})', 'algorithms')
+
+
 def v_dataclass(p):
   ex = p.extract(DC, 'dataclass')
   node = ex.node
@@ -169,6 +205,7 @@ def v_agg_keys(p):
 
 
 def build(p):
+  v_hparams_passthrough(p)
   D = 'native/C10.py'
   p.native('', D, 'pure')
   v_frames(p)
